@@ -152,7 +152,7 @@ def build_driver():
     rc, out = sh("coqc -Q ../../theories RV ../../theories/Extract.v", 600, cwd=d)
     if rc != 0: return rc, out
     for f in glob.glob(os.path.join(V, "driver", "*.ml")): shutil.copy(f, d)
-    rc, out = sh("ocamlfind ocamlopt -O2 -w -a model.mli model.ml conv.ml apidrv.ml driver.ml -o driver", 600, cwd=d)
+    rc, out = sh("ocamlfind ocamlopt -O2 -w -a model.mli model.ml conv.ml apidrv.ml specdrv.ml driver.ml -o driver", 600, cwd=d)
     if rc == 0: open(stamp, "w").write(hsh)
     return rc, out
 
@@ -188,7 +188,7 @@ def run_exec_shards(seed, shards, npat, nhay, budget, corpus=None, feat="default
 def run_stream_shards(sub, drvmode, seed, shards, n, extra="", feat="default", timeout=1500):
     """Generic: `rvharness <sub> <seed> <n> <extra> | driver <drvmode>` in parallel shards."""
     hb, db = harness_bin(feat), os.path.join(BUILD, "extract", "driver")
-    cmds = ["set -o pipefail; %s %s %d %d %s | %s %s" % (hb, sub, seed * 1000 + k, n, extra, db, drvmode) for k in range(shards)]
+    cmds = ["set -o pipefail; ulimit -s 1000000; %s %s %d %d %s | timeout 600 %s %s" % (hb, sub, seed * 1000 + k, n, extra, db, drvmode) for k in range(shards)]
     summary, mism, pv, errs = {}, [], [], []
     with concurrent.futures.ThreadPoolExecutor(max_workers=NCPU) as ex:
         for rc, out in ex.map(lambda c: sh(c, timeout), cmds):
